@@ -14,7 +14,7 @@ package sealingdrv
 //   {"ev":"Hist","P":{"E","Y","N","V","K"},"U":n,"base":[4 LE bytes],
 //    "init":{"tau","ga":[[id,att]..],"gs":{"t":[[id,att]..],"k":[key..]},"eta":[i0..i3],
 //            "kappa":[key..],"gammak":[..],"lambda":[..],"iota":[..]},
-//    "blocks":[{"slot","adv","ce","rk","tab","n":[{"id","att","sig"}..],
+//    "blocks":[{"slot","adv","ce","rk","tab","d" (name of the defect, echoed for statistics only),"n":[{"id","att","sig"}..],
 //               "hdr":{"author":i|-1|-2,"se":2|3,
 //                      "seal":{"mode":"t"|"f","att","so","key":"a"|"o","msg":"ok"|"alt","zero"},
 //                      "vs":{"ys":"s"|"o","key":"a"|"o","msg":"ok"|"x","zero","yv"},
@@ -400,6 +400,11 @@ func runHist(out *vfd.Out, c map[string]any) {
 			} else {
 				tm = types.TicketsMark(outsideIn(ps.Gamma.GammaA))
 			}
+			// the header codec carries exactly E entries: pad / cut a mark built from a part-filled accumulator
+			for i := 0; len(tm) < types.EpochLength; i++ {
+				tm = append(tm, types.TicketBody{ID: types.TicketID(u.out(-50 - i))})
+			}
+			tm = tm[:types.EpochLength]
 			hd.TicketsMark = &tm
 			tmRec = map[string]any{"has": 1, "t": u.pairs(tm)}
 		}
@@ -501,7 +506,7 @@ func runHist(out *vfd.Out, c map[string]any) {
 		h0in := append(append([]byte{}, ps.Eta[0][:]...), yv[:]...)
 		h0 := blake2b.Sum256(h0in)
 
-		rec := map[string]any{"ev": "Block", "slot": vfd.I(b["slot"]), "adv": vfd.I(b["adv"]), "ce": ce, "rk": vfd.S(b["rk"]), "off": []int{}, "n": nEcho,
+		rec := map[string]any{"ev": "Block", "d": vfd.S(b["d"]), "slot": vfd.I(b["slot"]), "adv": vfd.I(b["adv"]), "ce": ce, "rk": vfd.S(b["rk"]), "off": []int{}, "n": nEcho,
 			"author": author, "seal": sealRec, "vs": vsRec, "emh": emRec, "tmh": tmRec, "om": vfd.I(hdesc["om"]), "xh": 1 - vfd.I(hdesc["xh"]), "sr": 1 - vfd.I(hdesc["sr"]),
 			"h0": [][]int{vfd.B(h0in), vfd.B(h0[:])}, "tab": [][][][]int{}}
 		if vfd.I(b["tab"]) == 1 {
